@@ -12,7 +12,7 @@ def _externs_for(cfile):
     ext = {}
     ext.update(extern_cpython.EXTERNS)
     ext.update(extern_blas.EXTERNS)
-    if cfile == 'lapack.c':
+    if cfile in ('lapack.c', 'misc_solvers.c'):
         from contracts.c import extern_lapack
         ext.update(extern_lapack.externs())
     return ext
